@@ -561,3 +561,84 @@ package main
 //@   panics may
 //@   ensures grouped: old(glob(wg)) ==> glob(wg)
 //@   ensures stop: stop(result.E0, 1)
+
+// ---------------------------------------------------------------------------------------------
+// C05: every consumer of a dictionary enumeration (dict.Keys / Values / KVs expose Go's map order) has
+// an order-free postcondition that determines its observable result.  exaustiveCheck is above (C09).
+// ---------------------------------------------------------------------------------------------
+
+//@ func eqsItems
+//@   props C05
+//@   ghost pos map[string]int
+//@   panics never
+//@   ensures each: forall k string :: has(es.Dict.Fdict, k) ==> 0 <= pos[k] && pos[k] < len(result) && result[pos[k]] == k
+//@   ensures once: forall i int :: 0 <= i && i < len(result) ==> has(es.Dict.Fdict, result[i]) && pos[result[i]] == i
+//@   ensures others: mapsframe()
+//@   at after call dict.Keys#0: pos = c_pos
+
+// the union of two equivalence sets: exactly the keys of both, whatever the enumeration orders
+//@ func eqsUnion
+//@   props C05
+//@   modifies maps
+//@   ghost D1 map[string]bool
+//@   ghost D2 map[string]bool
+//@   ghost-assume snap1: D1 == domof(es1.Dict.Fdict)
+//@   ghost-assume snap2: D2 == domof(es2.Dict.Fdict)
+//@   panics never
+//@   ensures union: forall k string :: has(result.Dict.Fdict, k) <==> (D1[k] || D2[k])
+//@   ensures all-true: forall k string :: has(result.Dict.Fdict, k) ==> result.Dict.Fdict[k]
+//@   ensures fresh: result.Dict.Fdict != 0 && result.Dict.Fdict >= old(next)
+//@   ensures others: mapsframe()
+//@   inline-call slice.Iter#0
+//@   inline-call slice.Iter#1
+//@   loop slice.Iter#0/0 index i:
+//@     invariant ref: e3.Dict.Fdict != 0 && e3.Dict.Fdict >= old(next) && e3.Dict.Fdict < next
+//@     invariant keys: forall j int :: 0 <= j && j < len(s) ==> D1[s[j]]
+//@     invariant added: forall j int :: 0 <= j && j < i ==> has(e3.Dict.Fdict, s[j])
+//@     invariant only: forall k string :: has(e3.Dict.Fdict, k) ==> D1[k] && e3.Dict.Fdict[k]
+//@     invariant others: mapsframe()
+//@   loop slice.Iter#1/0 index i:
+//@     invariant ref: e3.Dict.Fdict != 0 && e3.Dict.Fdict >= old(next) && e3.Dict.Fdict < next
+//@     invariant keys: forall j int :: 0 <= j && j < len(s) ==> D2[s[j]]
+//@     invariant first: forall k string :: D1[k] ==> has(e3.Dict.Fdict, k)
+//@     invariant added: forall j int :: 0 <= j && j < i ==> has(e3.Dict.Fdict, s[j])
+//@     invariant only: forall k string :: has(e3.Dict.Fdict, k) ==> (D1[k] || D2[k]) && e3.Dict.Fdict[k]
+//@     invariant others: mapsframe()
+
+// every member of the set is registered to the same info, nothing else changes: order-free
+//@ func rsRegisterNewEI
+//@   props C05
+//@   modifies maps
+//@   panics iff res.eid.Fdict == 0 && (exists k string :: has(ei.eset.Dict.Fdict, k))
+//@   ensures registered: forall k string :: old(has(ei.eset.Dict.Fdict, k)) ==> has(res.eid.Fdict, k) && res.eid.Fdict[k] == ei
+//@   ensures rest: forall k string :: !old(has(ei.eset.Dict.Fdict, k)) ==> has(res.eid.Fdict, k) == old(has(res.eid.Fdict, k)) && res.eid.Fdict[k] == old(res.eid.Fdict[k])
+//@   ensures others: mapsframe_except(res.eid.Fdict)
+//@   inline-call slice.Iter#0
+//@   loop slice.Iter#0/0 index i:
+//@     invariant nonnil: i > 0 ==> res.eid.Fdict != 0
+//@     invariant registered: forall j int :: 0 <= j && j < i ==> has(res.eid.Fdict, s[j]) && res.eid.Fdict[s[j]] == ei
+//@     invariant rest: forall k string :: (forall j int :: 0 <= j && j < i ==> s[j] != k) ==> has(res.eid.Fdict, k) == old(has(res.eid.Fdict, k)) && res.eid.Fdict[k] == old(res.eid.Fdict[k])
+//@     invariant others: mapsframe_except(res.eid.Fdict)
+
+//@ func SCSDict
+//@   trusted
+//@   panics never
+//@   returns scdict(sc)
+//@   note abstract: the dictionaries of a scope (pointer dereference, hand-written)
+
+//@ func recFacMatch
+//@   trusted
+//@   panics never
+//@   returns recmatch(fieldNames, rf)
+//@   note abstract: a pure function of its arguments (sorted field-name comparison); no dictionary enumeration inside
+
+// record-literal resolution: the factory whose field names match.  CARVE-OUT (known finding F8): when two
+// record types of one scope have the same field names the result depends on Go's map order; the contract
+// is stated under the precondition that at most one factory of the scope matches.
+//@ func scLookupRecFacCur
+//@   props C05
+//@   requires carve-out-F8-at-most-one-match: forall a string, b string :: has(scdict(s).RecFacMap.Fdict, a) && has(scdict(s).RecFacMap.Fdict, b) && recmatch(fieldNames, scdict(s).RecFacMap.Fdict[a]) && recmatch(fieldNames, scdict(s).RecFacMap.Fdict[b]) ==> a == b
+//@   panics never
+//@   ensures found-iff: result.E1 <==> (exists k string :: has(scdict(s).RecFacMap.Fdict, k) && recmatch(fieldNames, scdict(s).RecFacMap.Fdict[k]))
+//@   ensures the-match: result.E1 ==> (exists k string :: has(scdict(s).RecFacMap.Fdict, k) && result.E0 == scdict(s).RecFacMap.Fdict[k] && recmatch(fieldNames, result.E0))
+//@   ensures others: mapsframe()
